@@ -47,9 +47,12 @@ class SdoClient(SdoBase):
         self.responses.put(bytes(data))
 
     def send_request(self, request):
-        retries_left = self.MAX_RETRIES
         if self.PAUSE_BEFORE_SEND:
             time.sleep(self.PAUSE_BEFORE_SEND)
+        self._send_request(request)
+
+    def _send_request(self, request):
+        retries_left = self.MAX_RETRIES
         while True:
             try:
                 self.network.send_message(self.rx_cobid, request)
@@ -78,11 +81,17 @@ class SdoClient(SdoBase):
 
     def request_response(self, sdo_request):
         retries_left = self.MAX_RETRIES
-        if not self.responses.empty():
-            # logger.warning("There were unexpected messages in the queue")
-            self.responses = queue.Queue()
+        first = True
         while True:
-            self.send_request(sdo_request)
+            if self.PAUSE_BEFORE_SEND:
+                time.sleep(self.PAUSE_BEFORE_SEND)
+            if first and not self.responses.empty():
+                # What arrived before the request goes out (also during the
+                # pause) cannot be the answer to it
+                # logger.warning("There were unexpected messages in the queue")
+                self.responses = queue.Queue()
+            first = False
+            self._send_request(sdo_request)
             # Wait for node to respond
             try:
                 return self.read_response()
